@@ -433,6 +433,10 @@ class Engine:
             return v.t
         if isinstance(v, VRecord) and v.cls == "cenum":
             return v.fields["value"].t
+        if isinstance(v, VOpt):
+            if not self.spec_mode:
+                self.implicit_error(st, z3.Not(v.isnone), "TypeError", node, "None-used-as-int")
+            return self.as_int(st, v.value, node)
         if isinstance(v, VBool):
             return z3.If(v.t, z3.IntVal(1), z3.IntVal(0))
         if isinstance(v, VAny):
@@ -621,6 +625,8 @@ class Engine:
         if isinstance(c, (list, tuple)):
             items = [self.const_value(x) for x in c]
             return VTuple(items, is_list=isinstance(c, list))
+        if isinstance(c, dict):
+            return VConst(c, "pydict")
         raise Unsupported(f"constant {c!r}")
 
     def ev_IfExp(self, e, st):
@@ -1108,7 +1114,7 @@ class Engine:
                 return VConst(f"{v.py}.{attr}", "builtin")
             if v.what == "ext":
                 return VConst(f"{v.py}.{attr}", "ext")
-            if v.what in ("aescipher", "hashobj", "pkcs1cipher", "counter"):
+            if v.what in ("aescipher", "hashobj", "pkcs1cipher", "counter", "pydict"):
                 return VConst((v, attr), "boundmethod")
             if v.what == "class":
                 modname, cname = v.py.split(":")
@@ -1143,6 +1149,11 @@ class Engine:
             raise Unsupported("list comprehension (only `[f(x) for x in xs]`)")
         out = []
         tgt = e.generators[0].target.id
+        gen_iter = e.generators[0].iter
+        if isinstance(e.elt, ast.Call) and len(e.elt.args) == 1 and not e.elt.keywords:
+            r = self.listcomp_struct_reads(e, st)
+            if r is not None:
+                return r
         for s, src in self.ev(e.generators[0].iter, st):
             src = self.deref(s, src)
             if isinstance(src, VTuple):
@@ -1177,6 +1188,75 @@ class Engine:
             s.heap[ident] = VSeq(r, "ilist")
             out.append((s, VRef(ident, "list")))
         return out
+
+    def listcomp_struct_reads(self, e, st):
+        """[Struct(fh) for _ in range(n)] for a fixed-size cstruct type: n consecutive records at a constant
+        stride, or EOFError when the file is too short (model derived from the struct definition)."""
+        from . import cstructmodel as cm
+        gen = e.generators[0]
+        tgt = gen.target.id
+        if any(isinstance(n, ast.Name) and n.id == tgt for n in ast.walk(e.elt)):
+            return None
+        outs = []
+        for s0, fv in self.ev(e.elt.func, st):
+            if not (isinstance(fv, VConst) and fv.what == "ctype"):
+                return None
+            modname, inst, sname = fv.py
+            module = self.repo.module(modname)
+            defs = cm.module_cdefs(self, module, inst)
+            size = cm.fixed_size(defs, sname, None)
+            if size is None:
+                return None
+            for s1, (fref, rng) in self.evs([e.elt.args[0], gen.iter], s0):
+                if not (isinstance(rng, VConst) and rng.what == "range" and isinstance(fref, VRef)):
+                    return None
+                cell = s1.heap.get(fref.ident)
+                if not (isinstance(cell, dict) and cell.get("__kind__") == "file"):
+                    return None
+                _, lo, hi, step = rng.py
+                n = z3.If(hi > lo, hi - lo, z3.IntVal(0))
+                n = self.named(s1, VInt(n), "count").t
+                pos, L, content = cell["pos"].t, IS.len(cell["content"].t), cell["content"].t
+                ok = z3.And(pos >= 0, pos + size * n <= L)
+                bad = s1.fork()
+                bad.assume(z3.Not(ok))
+                nc = dict(bad.heap[fref.ident])
+                nc["pos"] = VInt(fresh("pos", I))
+                bad.assume(nc["pos"].t >= 0)
+                bad.heap[fref.ident] = nc
+                self.throw(bad, "EOFError", e, "cstruct-short-read")
+                s1.assume(ok)
+                # element-wise characterisation of the list of records
+                rname = f"cstruct:{sname}"
+                from .values import RECORDS
+                if rname not in RECORDS:
+                    ftypes = {}
+                    for (f, fty, fc) in defs.structs[sname]:
+                        ftypes[f] = "bytes" if (fty == "char" and fc is not None) else "int"
+                    RECORDS[rname] = (ftypes, modname)
+                Lst = fresh("structs", VSq)
+                k = fresh("k", I)
+                fields, off = {}, 0
+                s2 = s1.fork()
+                for (f, fty, fc) in defs.structs[sname]:
+                    v, off = cm.fixed_field(self, s2, defs, inst, module, content, pos + size * k, off, fty, fc)
+                    fields[f] = v
+                defs_eq = [h for h in s2.pc[len(s1.pc):]]      # fld!n == value(k): inline them
+                sub = []
+                for h in defs_eq:
+                    sub.append((h.arg(0), h.arg(1)))
+                rec_term = box(VRecord(rname, fields))
+                rec_term = z3.substitute(rec_term, *sub) if sub else rec_term
+                s1.assume(VS.len(Lst) == n,
+                          z3.ForAll([k], z3.Implies(z3.And(0 <= k, k < n), VS.at(Lst, k) == rec_term), patterns=[VS.at(Lst, k)]))
+                nc = dict(s1.heap[fref.ident])
+                nc["pos"] = VInt(pos + size * n)
+                s1.heap[fref.ident] = nc
+                ident = f"list!{next(_ids)}"
+                s1.heap[ident] = VList(Lst, ("record", rname), "list")
+                self.fr.assumed_used.add(f"dissect.cstruct read model derived from the definitions loaded into {modname}.{inst}")
+                outs.append((s1, VRef(ident, "list")))
+        return outs
 
     def ev_Lambda(self, e, st):
         return [(st, VConst((e, dict(st.env)), "lambda"))]
